@@ -323,6 +323,16 @@ func (fe *FE) Run() {
 		}
 		st.guardedBases[fieldBase(t, gf[i+1:])] = lock
 	}
+	fe.loopWriteWhole = map[string]bool{}
+	for _, it := range fe.C.LoopWritesWhole {
+		scratch := st.clone()
+		fe.scanning = true
+		for _, n := range fe.havocItem(scratch, fe.ownCtx(scratch), it, "loopwrites") {
+			fe.loopWriteWhole[n] = true
+			fe.loopWriteWhole[stripComp(n)] = true
+		}
+		fe.scanning = false
+	}
 	for _, lw := range fe.C.LoopWrites {
 		ctx.what = "loopwrites"
 		v := ctx.eval(lw)
@@ -505,7 +515,7 @@ func (fe *FE) havocLoop(st *State, li *loopInfo) {
 			if !had || before == "?" {
 				before = name + "!0"
 			}
-			if after != "?" && after != before {
+			if after != "?" && after != before && !fe.loopWriteWhole[name] {
 				excl := ""
 				for _, w := range fe.loopWriteRefs {
 					excl += " (not (= a " + w + "))"
@@ -948,6 +958,11 @@ func (fe *FE) zeroStruct(st *State, t types.Type, ref string) {
 		arr := fe.heapTerm(st, "G_held", arraySort([]string{SInt}, SBool))
 		st.assume("(not (select " + arr + " " + ref + "))")
 		st.assume("(not (select G_held!0 " + ref + "))")
+	}
+	if n, ok := t.(*types.Named); ok && n.Obj().Pkg() != nil {
+		if ga, ok := fe.V.C.GhostAttrs[n.Obj().Pkg().Path()+"."+n.Obj().Name()]; ok {
+			fe.ghostArrSet(st, "G_"+ga[0], ref, ga[1], SInt)
+		}
 	}
 	if isNamed(t, "sync", "WaitGroup") {
 		for _, g := range []string{"added", "forked", "waited"} {
@@ -1542,7 +1557,7 @@ func (fe *FE) resolveOwnFrame(st *State) {
 		pc.own = false
 		preRef := fe.itemRef(pristine, pc, it)
 		names := fe.havocItem(scratch, cc, it, "own frame")
-		if strings.HasPrefix(it, "elemsof(") {
+		if strings.HasPrefix(it, "elemsof(") || strings.HasPrefix(it, "mapsof(") {
 			for _, n := range names {
 				fe.frameWhole[n] = true
 				fe.frameWhole[stripComp(n)] = true
